@@ -204,3 +204,502 @@ Proof.
         { apply HW'. exists o. rewrite Hlk. rewrite decide_False by lia. rewrite <- Ho. f_equal; lia. }
         congruence.
 Qed.
+
+(* ---- journal.dirties / addressToJournalIndex --------------------------------------------- *)
+Definition JOKl (l : list (addr * Z)) (m : gmap addr nat) : Prop :=
+  forall x i, m !! x = Some i -> exists n, l !! i = Some (x, n).
+Definition JOK (a : astate) : Prop := JOKl (a_dirties a) (a_jidx a).
+
+Lemma jidx_ok_JOK a : jidx_ok a = true -> JOK a.
+Proof.
+  unfold jidx_ok, JOK, JOKl. intros H x i Hx. rewrite forallb_forall in H.
+  assert (In (x, i) (map_to_list (a_jidx a))) as Hin.
+  { apply elem_of_list_In. apply elem_of_map_to_list. exact Hx. }
+  specialize (H _ Hin). simpl in H. destruct (a_dirties a !! i) as [[y n]|]; [|done].
+  simpl in H. apply N.eqb_eq in H. subst. eauto.
+Qed.
+
+Lemma add_dirty_spec a x : JOK a -> exists l m, add_dirty a x = Some (w_dirties a l m) /\ JOKl l m.
+Proof.
+  intros HJ. unfold add_dirty. destruct (a_jidx a !! x) as [i|] eqn:Hx.
+  - destruct (HJ x i Hx) as [n Hn]. rewrite Hn. simpl.
+    eexists _, _. split; [reflexivity|]. intros y j Hy. destruct (decide (i = j)) as [->|Hij].
+    + destruct (HJ y j Hy) as [n' Hn']. rewrite Hn in Hn'. inversion Hn'; subst.
+      rewrite list_lookup_insert by (eapply lookup_lt_Some; eauto). eauto.
+    + rewrite list_lookup_insert_ne by done. apply HJ. exact Hy.
+  - eexists _, _. split; [reflexivity|]. intros y j Hy. destruct (decide (x = y)) as [<-|Hxy].
+    + rewrite lookup_insert in Hy. inversion Hy; subst. rewrite lookup_app_r by lia.
+      rewrite Nat.sub_diag. simpl. eauto.
+    + rewrite lookup_insert_ne in Hy by done. destruct (HJ y j Hy) as [n Hn]. exists n.
+      rewrite lookup_app_l; [done|]. eapply lookup_lt_Some; eauto.
+Qed.
+
+Lemma j_append_spec a e : JOK a ->
+  exists l m, j_append a e = Some (w_dirties (w_entries a (a_entries a ++ [e])) l m) /\ JOKl l m.
+Proof.
+  intros HJ. unfold j_append. destruct (dirtied e) as [x|].
+  - destruct (add_dirty_spec (w_entries a (a_entries a ++ [e])) x HJ) as [l [m [H1 H2]]]. eauto.
+  - exists (a_dirties a), (a_jidx a). split; [reflexivity|exact HJ].
+Qed.
+
+(* the dirties bookkeeping never touches anything else *)
+Lemma add_dirty_shape a x a' : add_dirty a x = Some a' -> exists l m, a' = w_dirties a l m.
+Proof.
+  unfold add_dirty. destruct (a_jidx a !! x); [destruct (a_dirties a !! _); simpl|]; intros [= <-]; eauto.
+Qed.
+Lemma sub_dirty_shape a x a' : sub_dirty a x = Some a' -> exists l m, a' = w_dirties a l m.
+Proof.
+  unfold sub_dirty. destruct (a_jidx a !! x); [destruct (a_dirties a !! _) as [d|]; simpl; [destruct (d.2 =? 0)|]|];
+    intros [= <-]; eauto; exists (a_dirties a), (a_jidx a); destruct a; reflexivity.
+Qed.
+Lemma delete_dirty_shape a x a' : delete_dirty a x = Some a' -> exists l m, a' = w_dirties a l m.
+Proof.
+  unfold delete_dirty. destruct (a_jidx a !! x); [destruct (decide _)|]; intros [= <-]; eauto;
+    exists (a_dirties a), (a_jidx a); destruct a; reflexivity.
+Qed.
+
+(* ---- per-object storage: dirtyStorage/originStorage + their index maps -------------------- *)
+Definition DW (o : obj) : Prop := forall k i, o_didx o !! k = Some i -> exists v, o_dirty o !! i = Some (k, v).
+Definition OW (p : pers) (x : addr) (o : obj) : Prop :=
+  forall k i, o_oidx o !! k = Some i -> o_origin o !! i = Some (k, pslot p x k).
+Definition oget (p : pers) (x : addr) (o : obj) (k : key) : Z :=
+  match o_didx o !! k with
+  | Some i => default 0 (snd <$> o_dirty o !! i)
+  | None => pslot p x k
+  end.
+
+Lemma obj_committed_spec p x o k : OW p x o ->
+  exists l m, obj_committed p x o k = Some (pslot p x k, set_origin o l m) /\ OW p x (set_origin o l m).
+Proof.
+  intros HO. unfold obj_committed. destruct (o_oidx o !! k) as [i|] eqn:Hk.
+  - rewrite (HO k i Hk). simpl. exists (o_origin o), (o_oidx o). split; [destruct o; reflexivity|exact HO].
+  - eexists _, _. split; [reflexivity|]. intros k' j Hk'. simpl in *.
+    destruct (decide (k = k')) as [<-|Hne].
+    + rewrite lookup_insert in Hk'. inversion Hk'; subst. rewrite lookup_app_r by lia.
+      rewrite Nat.sub_diag. reflexivity.
+    + rewrite lookup_insert_ne in Hk' by done. rewrite lookup_app_l; [apply HO; done|].
+      eapply lookup_lt_Some. apply HO. exact Hk'.
+Qed.
+
+Lemma obj_getstate_spec p x o k : DW o -> OW p x o ->
+  exists l m, obj_getstate p x o k = Some (oget p x o k, set_origin o l m) /\ OW p x (set_origin o l m).
+Proof.
+  intros HD HO. unfold obj_getstate, oget. destruct (o_didx o !! k) as [i|] eqn:Hk.
+  - destruct (HD k i Hk) as [v Hv]. rewrite Hv. simpl.
+    exists (o_origin o), (o_oidx o). split; [destruct o; reflexivity|exact HO].
+  - apply obj_committed_spec. exact HO.
+Qed.
+
+Lemma obj_setstate_spec p x o k v : DW o ->
+  exists l m, obj_setstate o k v = Some (set_dirty o l m) /\ DW (set_dirty o l m) /\
+    forall k', oget p x (set_dirty o l m) k' = if decide (k = k') then v else oget p x o k'.
+Proof.
+  intros HD. unfold obj_setstate. destruct (o_didx o !! k) as [i|] eqn:Hk.
+  - destruct (HD k i Hk) as [v0 Hv0]. rewrite Hv0. simpl.
+    pose proof (lookup_lt_Some _ _ _ Hv0) as Hlt.
+    eexists _, _. split; [reflexivity|]. split.
+    + intros k' j Hk'. simpl in *. destruct (decide (i = j)) as [->|Hij].
+      * destruct (HD k' j Hk') as [v' Hv']. rewrite Hv0 in Hv'. inversion Hv'; subst.
+        rewrite list_lookup_insert by done. eauto.
+      * rewrite list_lookup_insert_ne by done. apply HD. exact Hk'.
+    + intros k'. unfold oget; simpl. destruct (decide (k = k')) as [<-|Hne].
+      * rewrite Hk. rewrite list_lookup_insert by done. reflexivity.
+      * destruct (o_didx o !! k') as [j|] eqn:Hk'; [|reflexivity].
+        assert (i <> j). { intros ->. destruct (HD k' j Hk') as [v' Hv']. rewrite Hv0 in Hv'. inversion Hv'; subst; done. }
+        rewrite list_lookup_insert_ne by done. reflexivity.
+  - eexists _, _. split; [reflexivity|]. split.
+    + intros k' j Hk'. simpl in *. destruct (decide (k = k')) as [<-|Hne].
+      * rewrite lookup_insert in Hk'. inversion Hk'; subst. rewrite lookup_app_r by lia.
+        rewrite Nat.sub_diag. simpl. eauto.
+      * rewrite lookup_insert_ne in Hk' by done. destruct (HD k' j Hk') as [v' Hv']. exists v'.
+        rewrite lookup_app_l; [done|]. eapply lookup_lt_Some; eauto.
+    + intros k'. unfold oget; simpl. destruct (decide (k = k')) as [<-|Hne].
+      * rewrite lookup_insert. rewrite lookup_app_r by lia. rewrite Nat.sub_diag. reflexivity.
+      * rewrite lookup_insert_ne by done. destruct (o_didx o !! k') as [j|] eqn:Hk'; [|reflexivity].
+        destruct (HD k' j Hk') as [v' Hv']. rewrite lookup_app_l by (eapply lookup_lt_Some; eauto). reflexivity.
+Qed.
+
+(* ---- composite steps --------------------------------------------------------------------- *)
+Definition same_frame (a a1 : astate) : Prop :=
+  a_pers a1 = a_pers a /\ a_revs a1 = a_revs a /\ a_nextid a1 = a_nextid a /\ a_refund a1 = a_refund a.
+
+Lemma load_none_pbal p x : load p x = None -> pbal p x = 0.
+Proof.
+  unfold load. destruct (p_keeper p !! x) as [[n h]|]; [done|].
+  destruct (pbal p x =? 0) eqn:E; [|done]. intros _. apply Z.eqb_eq. exact E.
+Qed.
+
+Lemma get_or_new_spec a x : WO a -> JOK a ->
+  exists a1 o new, get_or_new_obj a x = Some (a1, o) /\ WO a1 /\ JOK a1 /\
+    look a1 x = Some o /\ (forall y, y <> x -> look a1 y = look a y) /\
+    a_entries a1 = a_entries a ++ new /\ same_frame a a1 /\
+    ((look a x = Some o /\ new = []) \/
+     (look a x = None /\ load (a_pers a) x = None /\ new = [ECreate x] /\ o = mk_obj 0 0 0%N)).
+Proof.
+  intros HW HJ. unfold get_or_new_obj.
+  destruct (get_obj_spec a x HW) as [l [m [Hg [HW1 Hl1]]]]. rewrite Hg. simpl.
+  destruct (look a x) as [o|] eqn:Hlx.
+  - exists (w_objs a l m), o, []. split; [reflexivity|]. split; [exact HW1|]. split; [exact HJ|].
+    split; [rewrite Hl1; exact Hlx|]. split; [intros y _; apply Hl1|].
+    split; [simpl; rewrite app_nil_r; reflexivity|]. split; [repeat split|]. left; done.
+  - set (a1 := w_objs a l m) in *.
+    assert (WO a1) as HWa1 by exact HW1.
+    assert (look a1 x = None) as Hl1x by (rewrite Hl1; exact Hlx).
+    assert (load (a_pers a) x = None) as Hld.
+    { unfold look in Hlx. destruct (a_oidx a !! x) as [i|] eqn:Hi; [|exact Hlx].
+      destruct (look_live a x i HW Hi) as [o' [_ Hc]]. unfold look in Hc. rewrite Hi in Hc. congruence. }
+    unfold create_obj.
+    destruct (get_obj_spec a1 x HWa1) as [l2 [m2 [Hg2 [HW2 Hl2]]]]. rewrite Hg2, Hl1x. simpl.
+    set (a2 := w_objs a1 l2 m2) in *.
+    destruct (j_append_spec a2 (ECreate x) HJ) as [dl [dm [Hj HJ3]]]. rewrite Hj. simpl.
+    rewrite (load_none_pbal _ _ Hld).
+    match goal with |- context [set_obj ?t x _] => set (a3 := t) end.
+    assert (WO a3) as HW3 by exact HW2.
+    destruct (set_obj_spec a3 x (mk_obj 0 0 0%N) HW3) as [l4 [m4 [Hs [HW4 Hl4]]]]. rewrite Hs. simpl.
+    exists (w_objs a3 l4 m4), (mk_obj 0 0 0%N), [ECreate x].
+    split; [reflexivity|]. split; [exact HW4|]. split; [exact HJ3|].
+    split; [rewrite Hl4; rewrite decide_True by done; reflexivity|].
+    split.
+    { intros y Hy. rewrite Hl4. rewrite decide_False by done.
+      change (look a3 y) with (look a2 y). rewrite Hl2. apply Hl1. }
+    split; [reflexivity|]. split; [repeat split|]. right. done.
+Qed.
+
+(* ---- the simulation relation -------------------------------------------------------------- *)
+Definition canon (m : gmap key Z) : Prop := forall k, m !! k <> Some 0.
+
+Definition arel (p : pers) (x : addr) (o : obj) (c : acct) : Prop :=
+  o_bal o = bal c /\ o_nonce o = nonce c /\ o_hash o = code c /\ o_suic o = suic c /\
+  (forall k, oget p x o k = sget (stor c) k) /\ (forall k, pslot p x k = sget (comm c) k) /\
+  DW o /\ OW p x o /\ canon (stor c).
+Definition orel (p : pers) (x : addr) (so : option obj) (sc : option acct) : Prop :=
+  match so, sc with
+  | Some o, Some c => arel p x o c
+  | None, None => True
+  | _, _ => False
+  end.
+Definition crel (a : astate) (c : core) : Prop :=
+  (forall x, orel (a_pers a) x (look a x) (accts c !! x)) /\ a_refund a = refund c.
+
+(* no residue: an account that does not exist for the adapter has no stored storage words *)
+Definition NR (p : pers) : Prop := forall x, load p x = None -> forall k, pslot p x k = 0.
+
+(* spec-level undo of one journal entry *)
+Definition sundo (e : entry) (c : core) : core :=
+  match e with
+  | ECreate x => with_accts c (delete x (accts c))
+  | EBalance x prev => with_accts c (alter (fun a => with_bal a prev) x (accts c))
+  | ENonce x prev => with_accts c (alter (fun a => with_nonce a prev) x (accts c))
+  | EStorage x k prev => with_accts c (alter (fun a => with_stor a (cset k prev (stor a))) x (accts c))
+  | ESuicide x prev pb => with_accts c (alter (fun a => with_suic (with_bal a pb) prev) x (accts c))
+  | ERefund prev => with_refund c prev
+  | _ => c
+  end.
+Definition sundo_list (l : list entry) (c : core) : core := fold_left (fun c e => sundo e c) l c.
+
+(* journal entries the proved core can produce *)
+Definition entry_ok (p : pers) (e : entry) : Prop :=
+  match e with
+  | ECreate x => load p x = None
+  | EReset _ _ | ECode _ _ _ | ELog | EAlAddr _ | EAlSlot _ _ => False
+  | _ => True
+  end.
+
+Lemma cset_get k v m k' : canon m -> sget (cset k v m) k' = if decide (k = k') then v else sget m k'.
+Proof.
+  intros Hc. unfold cset, sget. destruct (v =? 0) eqn:E.
+  - apply Z.eqb_eq in E. subst. destruct (decide (k = k')) as [<-|Hne].
+    + rewrite lookup_delete. reflexivity.
+    + rewrite lookup_delete_ne by done. reflexivity.
+  - destruct (decide (k = k')) as [<-|Hne].
+    + rewrite lookup_insert. reflexivity.
+    + rewrite lookup_insert_ne by done. reflexivity.
+Qed.
+Lemma cset_canon k v m : canon m -> canon (cset k v m).
+Proof.
+  intros Hc k'. unfold cset. destruct (v =? 0) eqn:E.
+  - destruct (decide (k = k')) as [<-|Hne]; [rewrite lookup_delete; done|rewrite lookup_delete_ne by done; apply Hc].
+  - destruct (decide (k = k')) as [<-|Hne]; [|rewrite lookup_insert_ne by done; apply Hc].
+    rewrite lookup_insert. intros [= ->]. done.
+Qed.
+(* writing back the value a slot had restores the map exactly (maps are canonical) *)
+Lemma cset_undo k v m : canon m -> cset k (sget m k) (cset k v m) = m.
+Proof.
+  intros Hc. apply map_eq. intros k'. unfold sget.
+  destruct (m !! k) as [w|] eqn:Hk; simpl.
+  - assert (w <> 0) as Hw by (intros ->; apply (Hc k); done).
+    unfold cset at 1. rewrite (proj2 (Z.eqb_neq w 0) Hw).
+    destruct (decide (k = k')) as [<-|Hne].
+    + rewrite lookup_insert. done.
+    + rewrite lookup_insert_ne by done. unfold cset. destruct (v =? 0).
+      * rewrite lookup_delete_ne by done. reflexivity.
+      * rewrite lookup_insert_ne by done. reflexivity.
+  - unfold cset at 1. simpl. destruct (decide (k = k')) as [<-|Hne].
+    + rewrite lookup_delete. done.
+    + rewrite lookup_delete_ne by done. unfold cset. destruct (v =? 0).
+      * rewrite lookup_delete_ne by done. reflexivity.
+      * rewrite lookup_insert_ne by done. reflexivity.
+Qed.
+Lemma cset_same k m : canon m -> cset k (sget m k) m = m.
+Proof.
+  intros Hc. apply map_eq. intros k'. unfold sget. destruct (m !! k) as [w|] eqn:Hk; simpl.
+  - assert (w <> 0) as Hw by (intros ->; apply (Hc k); done).
+    unfold cset. rewrite (proj2 (Z.eqb_neq w 0) Hw).
+    destruct (decide (k = k')) as [<-|Hne]; [rewrite lookup_insert; done|rewrite lookup_insert_ne by done; done].
+  - unfold cset. simpl. destruct (decide (k = k')) as [<-|Hne]; [rewrite lookup_delete; done|rewrite lookup_delete_ne by done; done].
+Qed.
+
+Lemma arel_set_origin p x o c l m : OW p x (set_origin o l m) -> arel p x o c -> arel p x (set_origin o l m) c.
+Proof. intros HO (A & B & C & D & E & F & G & H & I). repeat split; try assumption. Qed.
+
+(* ---- invariant --------------------------------------------------------------------------- *)
+Definition mono (l : list (Z * nat)) : Prop :=
+  forall i j r1 r2, l !! i = Some r1 -> l !! j = Some r2 -> (i <= j)%nat -> (r1.2 <= r2.2)%nat.
+Definition SR (a : astate) (s : sstate) : Prop :=
+  Forall2 (fun (r : Z * nat) (sn : Z * core) =>
+             r.1 = sn.1 /\ (r.2 <= length (a_entries a))%nat /\
+             sn.2 = sundo_list (rev (drop r.2 (a_entries a))) (cur s)) (a_revs a) (snaps s)
+  /\ mono (a_revs a).
+
+Record Inv (a : astate) (s : sstate) : Prop := {
+  i_wo : WO a; i_jok : JOK a; i_nr : NR (a_pers a); i_crel : crel a (cur s);
+  i_id : a_nextid a = nextid s; i_sr : SR a s;
+  i_ent : Forall (entry_ok (a_pers a)) (a_entries a) }.
+
+Lemma sundo_list_app l1 l2 c : sundo_list (l1 ++ l2) c = sundo_list l2 (sundo_list l1 c).
+Proof. unfold sundo_list. apply fold_left_app. Qed.
+
+Lemma SR_extend a a' s c2 new :
+  a_revs a' = a_revs a -> a_entries a' = a_entries a ++ new ->
+  sundo_list (rev new) c2 = cur s -> SR a s -> SR a' (with_cur s c2).
+Proof.
+  intros Hr He Hu [HF Hm]. split; [|rewrite Hr; exact Hm]. rewrite Hr. simpl.
+  eapply Forall2_impl; [exact HF|]. intros r sn (H1 & H2 & H3). split; [exact H1|]. split.
+  - rewrite He, app_length. lia.
+  - rewrite He. rewrite drop_app_le by exact H2. rewrite rev_app_distr, sundo_list_app, Hu. exact H3.
+Qed.
+
+Lemma with_accts_id c : with_accts c (accts c) = c.
+Proof. destruct c; reflexivity. Qed.
+
+Lemma arel_new p x : NR p -> load p x = None -> arel p x (mk_obj 0 0 0%N) (new_acct 0).
+Proof.
+  intros HN Hl. unfold arel, new_acct; simpl. repeat split; try reflexivity.
+  - intros k. unfold oget; simpl. rewrite lookup_empty. unfold sget. rewrite lookup_empty. simpl. apply HN. exact Hl.
+  - intros k. unfold sget. rewrite lookup_empty. simpl. apply HN. exact Hl.
+  - intros k i Hk. simpl in Hk. rewrite lookup_empty in Hk. done.
+  - intros k i Hk. simpl in Hk. rewrite lookup_empty in Hk. done.
+  - intros k. rewrite lookup_empty. done.
+Qed.
+
+Lemma gn_rel a s x : Inv a s ->
+  exists a1 o new ac, get_or_new_obj a x = Some (a1, o) /\ WO a1 /\ JOK a1 /\
+    look a1 x = Some o /\ (forall y, y <> x -> look a1 y = look a y) /\
+    a_entries a1 = a_entries a ++ new /\ same_frame a a1 /\
+    arel (a_pers a) x o ac /\ get_or_new (accts (cur s)) x = ac /\
+    ((new = [] /\ accts (cur s) !! x = Some ac) \/
+     (new = [ECreate x] /\ accts (cur s) !! x = None /\ load (a_pers a) x = None)).
+Proof.
+  intros HI. destruct (get_or_new_spec a x (i_wo _ _ HI) (i_jok _ _ HI))
+    as (a1 & o & new & Hg & HW & HJ & Hl & Hoth & He & Hf & Hcase).
+  pose proof (proj1 (i_crel _ _ HI) x) as Hx. unfold orel in Hx.
+  destruct Hcase as [[Hlx ->]|(Hlx & Hld & -> & ->)].
+  - rewrite Hlx in Hx. destruct (accts (cur s) !! x) as [ac|] eqn:Hac; [|done].
+    exists a1, o, [], ac.
+    refine (conj Hg (conj HW (conj HJ (conj Hl (conj Hoth (conj He (conj Hf (conj Hx (conj _ _))))))))).
+    + unfold get_or_new; rewrite Hac; reflexivity.
+    + left. done.
+  - rewrite Hlx in Hx. destruct (accts (cur s) !! x) as [ac|] eqn:Hac; [done|].
+    exists a1, (mk_obj 0 0 0%N), [ECreate x], (new_acct 0).
+    refine (conj Hg (conj HW (conj HJ (conj Hl (conj Hoth (conj He (conj Hf (conj _ (conj _ _))))))))).
+    + apply arel_new; [exact (i_nr _ _ HI)|exact Hld].
+    + unfold get_or_new; rewrite Hac; reflexivity.
+    + right. done.
+Qed.
+
+(* closing a mutation of account x: the new object is related to the new account, and undoing
+   the entries journalled after the (possible) creation gives back the old account *)
+Lemma fin_rel a s x a1 a' new es2 ac ac' o' :
+  Inv a s ->
+  (forall y, y <> x -> look a1 y = look a y) -> a_entries a1 = a_entries a ++ new -> same_frame a a1 ->
+  ((new = [] /\ accts (cur s) !! x = Some ac) \/
+   (new = [ECreate x] /\ accts (cur s) !! x = None /\ load (a_pers a) x = None)) ->
+  WO a' -> JOK a' ->
+  (forall y, look a' y = if decide (x = y) then Some o' else look a1 y) ->
+  a_entries a' = a_entries a1 ++ es2 -> same_frame a1 a' ->
+  arel (a_pers a) x o' ac' ->
+  Forall (entry_ok (a_pers a)) es2 ->
+  sundo_list (rev es2) (with_accts (cur s) (<[x := ac']> (accts (cur s)))) =
+    with_accts (cur s) (<[x := ac]> (accts (cur s))) ->
+  Inv a' (with_cur s (with_accts (cur s) (<[x := ac']> (accts (cur s))))).
+Proof.
+  intros HI Hoth He1 (Hp1 & Hr1 & Hn1 & Hf1) Hcase HW HJ Hl He2 (Hp2 & Hr2 & Hn2 & Hf2) Har Hok Hundo.
+  assert (a_pers a' = a_pers a) as Hp by congruence.
+  split.
+  - exact HW.
+  - exact HJ.
+  - rewrite Hp. exact (i_nr _ _ HI).
+  - split; simpl.
+    + intros y. rewrite Hp, Hl. destruct (decide (x = y)) as [<-|Hxy].
+      * rewrite lookup_insert. exact Har.
+      * rewrite lookup_insert_ne by done. rewrite Hoth by done. apply (proj1 (i_crel _ _ HI)).
+    + rewrite Hf2, Hf1. apply (proj2 (i_crel _ _ HI)).
+  - simpl. rewrite Hn2, Hn1. exact (i_id _ _ HI).
+  - apply (SR_extend a a' s _ (new ++ es2)); [congruence|rewrite He2, He1, app_assoc; reflexivity| |exact (i_sr _ _ HI)].
+    rewrite rev_app_distr, sundo_list_app, Hundo.
+    destruct Hcase as [[-> Hac]|(-> & Hac & _)]; unfold sundo_list; simpl.
+    + rewrite insert_id by exact Hac. apply with_accts_id.
+    + unfold with_accts; simpl. rewrite delete_insert by exact Hac. destruct (cur s); reflexivity.
+  - rewrite Hp, He2, He1. apply Forall_app. split; [apply Forall_app; split|].
+    + exact (i_ent _ _ HI).
+    + destruct Hcase as [[-> _]|(-> & _ & Hld)]; [constructor|]. constructor; [exact Hld|constructor].
+    + exact Hok.
+Qed.
+
+Lemma so_spec a x o : WO a -> JOK a ->
+  exists a', set_obj a x o = Some a' /\ WO a' /\ JOK a' /\
+    (forall y, look a' y = if decide (x = y) then Some o else look a y) /\
+    a_entries a' = a_entries a /\ same_frame a a'.
+Proof.
+  intros HW HJ. destruct (set_obj_spec a x o HW) as (l & m & Hs & HW' & Hl).
+  exists (w_objs a l m). split; [exact Hs|]. split; [exact HW'|]. split; [exact HJ|].
+  split; [exact Hl|]. split; [reflexivity|]. repeat split.
+Qed.
+
+Lemma js_spec a e x o : WO a -> JOK a ->
+  exists a2 a', j_append a e = Some a2 /\ set_obj a2 x o = Some a' /\ WO a' /\ JOK a' /\
+    (forall y, look a' y = if decide (x = y) then Some o else look a y) /\
+    a_entries a' = a_entries a ++ [e] /\ same_frame a a'.
+Proof.
+  intros HW HJ. destruct (j_append_spec a e HJ) as (dl & dm & Hj & HJ').
+  set (a2 := w_dirties (w_entries a (a_entries a ++ [e])) dl dm) in *.
+  assert (WO a2) as HW2 by exact HW.
+  destruct (set_obj_spec a2 x o HW2) as (l & m & Hs & HW' & Hl).
+  exists a2, (w_objs a2 l m). split; [exact Hj|]. split; [exact Hs|]. split; [exact HW'|]. split; [exact HJ'|].
+  split; [exact Hl|]. split; [reflexivity|]. repeat split.
+Qed.
+
+Lemma inv_same_spec a a' s : Inv a s -> WO a' -> JOK a' ->
+  a_pers a' = a_pers a -> a_refund a' = a_refund a -> a_nextid a' = a_nextid a ->
+  a_revs a' = a_revs a -> a_entries a' = a_entries a ->
+  (forall y, orel (a_pers a) y (look a' y) (accts (cur s) !! y)) -> Inv a' s.
+Proof.
+  intros HI HW HJ Hp Hf Hn Hr He Hl. split.
+  - exact HW.
+  - exact HJ.
+  - rewrite Hp. exact (i_nr _ _ HI).
+  - split; [rewrite Hp; exact Hl|rewrite Hf; exact (proj2 (i_crel _ _ HI))].
+  - rewrite Hn. exact (i_id _ _ HI).
+  - destruct (i_sr _ _ HI) as [HF Hm]. split; [|rewrite Hr; exact Hm]. rewrite Hr, He. exact HF.
+  - rewrite Hp, He. exact (i_ent _ _ HI).
+Qed.
+
+(* reads *)
+Lemma read_sim a s x f g : Inv a s ->
+  (forall so sc, orel (a_pers a) x so sc -> f so = g sc) ->
+  exists a', read_obj a x f = Some (g (accts (cur s) !! x), a') /\ Inv a' s.
+Proof.
+  intros HI Hfg. unfold read_obj. destruct (get_obj_spec a x (i_wo _ _ HI)) as (l & m & Hg & HW & Hl).
+  rewrite Hg. simpl. exists (w_objs a l m). split.
+  - f_equal. f_equal. apply Hfg. apply (proj1 (i_crel _ _ HI)).
+  - apply (inv_same_spec a _ s HI); try reflexivity; [exact HW|exact (i_jok _ _ HI)|].
+    intros y. rewrite Hl. apply (proj1 (i_crel _ _ HI)).
+Qed.
+
+Definition simo (a : astate) (s : sstate) (o : op) : Prop :=
+  exists r a' s', astep_opt a o = Some (r, a') /\ spec_step s o = (r, s') /\ Inv a' s'.
+
+Definition sim (a : astate) (s : sstate) (o : op) : Prop :=
+  exists r a' s', astep a o = (r, a') /\ spec_step s o = (r, s') /\ Inv a' s'.
+Lemma simo_sim a s o : simo a s o -> sim a s o.
+Proof. intros (r & a' & s' & H1 & H2 & H3). exists r, a', s'. unfold astep. rewrite H1. done. Qed.
+
+Lemma sim_GetBalance a s x : Inv a s -> simo a s (GetBalance x).
+Proof.
+  intros HI. destruct (read_sim a s x (fun so => OZ (match so with Some o => o_bal o | None => 0 end))
+    (fun sc => OZ (match sc with Some c => bal c | None => 0 end)) HI) as (a' & H1 & H2).
+  { intros [o|] [c|] Hr; simpl in Hr; try done. destruct Hr as (-> & _). reflexivity. }
+  eexists _, a', s. split; [exact H1|]. split; [reflexivity|exact H2].
+Qed.
+Lemma sim_GetNonce a s x : Inv a s -> simo a s (GetNonce x).
+Proof.
+  intros HI. destruct (read_sim a s x (fun so => OZ (match so with Some o => o_nonce o | None => 0 end))
+    (fun sc => OZ (match sc with Some c => nonce c | None => 0 end)) HI) as (a' & H1 & H2).
+  { intros [o|] [c|] Hr; simpl in Hr; try done. destruct Hr as (_ & -> & _). reflexivity. }
+  eexists _, a', s. split; [exact H1|]. split; [reflexivity|exact H2].
+Qed.
+Lemma sim_HasSuicided a s x : Inv a s -> simo a s (HasSuicided x).
+Proof.
+  intros HI. destruct (read_sim a s x (fun so => OBool (match so with Some o => o_suic o | None => false end))
+    (fun sc => OBool (match sc with Some c => suic c | None => false end)) HI) as (a' & H1 & H2).
+  { intros [o|] [c|] Hr; simpl in Hr; try done. destruct Hr as (_ & _ & _ & -> & _). reflexivity. }
+  eexists _, a', s. split; [exact H1|]. split; [reflexivity|exact H2].
+Qed.
+Lemma sim_Exist a s x : Inv a s -> simo a s (Exist x).
+Proof.
+  intros HI. destruct (read_sim a s x (fun so => OBool (match so with Some _ => true | None => false end))
+    (fun sc => OBool (match sc with Some _ => true | None => false end)) HI) as (a' & H1 & H2).
+  { intros [o|] [c|] Hr; simpl in Hr; done. }
+  eexists _, a', s. split; [exact H1|]. split; [reflexivity|exact H2].
+Qed.
+Lemma sim_Empty a s x : Inv a s -> simo a s (Empty x).
+Proof.
+  intros HI. destruct (read_sim a s x (fun so => OBool (match so with Some o => obj_empty o | None => true end))
+    (fun sc => OBool (match sc with Some c => acct_empty c | None => true end)) HI) as (a' & H1 & H2).
+  { intros [o|] [c|] Hr; simpl in Hr; try done. destruct Hr as (A & B & C & _).
+    unfold obj_empty, acct_empty. rewrite A, B, C. reflexivity. }
+  eexists _, a', s. split; [exact H1|]. split; [reflexivity|exact H2].
+Qed.
+
+(* writes *)
+Lemma arel_bal p x o c b : arel p x o c -> arel p x (set_bal o b) (with_bal c b).
+Proof. intros (A & B & C & D & E & F & G & H & I). repeat split; try assumption. Qed.
+Lemma arel_nonce p x o c n : arel p x o c -> arel p x (set_nonce o n) (with_nonce c n).
+Proof. intros (A & B & C & D & E & F & G & H & I). repeat split; try assumption. Qed.
+Lemma arel_suic p x o c b : arel p x o c -> arel p x (set_suic o b) (with_suic c b).
+Proof. intros (A & B & C & D & E & F & G & H & I). repeat split; try assumption. Qed.
+
+Lemma with_bal_undo c b : with_bal (with_bal c b) (bal c) = c.
+Proof. destruct c; reflexivity. Qed.
+Lemma with_nonce_undo c n : with_nonce (with_nonce c n) (nonce c) = c.
+Proof. destruct c; reflexivity. Qed.
+Lemma with_bal_same c : with_bal c (bal c) = c.
+Proof. destruct c; reflexivity. Qed.
+
+Lemma sundo_one e c : sundo_list [e] c = sundo e c.
+Proof. reflexivity. Qed.
+
+Lemma sim_AddBalance a s x v : Inv a s -> simo a s (AddBalance x v).
+Proof.
+  intros HI. destruct (gn_rel a s x HI) as (a1 & o & new & ac & Hg & HW1 & HJ1 & Hl1 & Hoth & He1 & Hf1 & Har & Hgn & Hcase).
+  unfold simo. simpl. rewrite Hg. simpl. unfold upd_acct. rewrite Hgn.
+  pose proof Har as (Ab & An & Ah & As & _).
+  destruct (v =? 0) eqn:Ev.
+  - apply Z.eqb_eq in Ev. subst v. rewrite Z.add_0_r, with_bal_same.
+    assert (forall a', WO a' -> JOK a' -> (forall y, look a' y = look a1 y) -> forall es2,
+              a_entries a' = a_entries a1 ++ es2 -> same_frame a1 a' -> Forall (entry_ok (a_pers a)) es2 ->
+              sundo_list (rev es2) (with_accts (cur s) (<[x := ac]> (accts (cur s)))) =
+                with_accts (cur s) (<[x := ac]> (accts (cur s))) ->
+              Inv a' (with_cur s (with_accts (cur s) (<[x := ac]> (accts (cur s)))))) as Hfin.
+    { intros a' HW' HJ' Hl' es2 He2 Hf2 Hok Hu.
+      eapply (fin_rel a s x a1 a' new es2 ac ac o); eauto.
+      intros y. rewrite Hl'. destruct (decide (x = y)) as [<-|]; [exact Hl1|reflexivity]. }
+    destruct (obj_empty o).
+    + destruct (j_append_spec a1 (ETouch x) HJ1) as (dl & dm & Hj & HJ2). rewrite Hj. simpl.
+      set (a2 := w_dirties (w_entries a1 (a_entries a1 ++ [ETouch x])) dl dm) in *.
+      destruct (x =? RIPEMD)%N.
+      * destruct (add_dirty_spec a2 x HJ2) as (dl' & dm' & Hd & HJ3). rewrite Hd. simpl.
+        eexists _, _, _. split; [reflexivity|]. split; [reflexivity|].
+        apply (Hfin (w_dirties a2 dl' dm') HW1 HJ3 (fun y => eq_refl) [ETouch x]); [reflexivity|repeat split|repeat constructor|reflexivity].
+      * eexists _, _, _. split; [reflexivity|]. split; [reflexivity|].
+        apply (Hfin a2 HW1 HJ2 (fun y => eq_refl) [ETouch x]); [reflexivity|repeat split|repeat constructor|reflexivity].
+    + eexists _, _, _. split; [reflexivity|]. split; [reflexivity|].
+      apply (Hfin a1 HW1 HJ1 (fun y => eq_refl) []); [rewrite app_nil_r; reflexivity|repeat split|constructor|reflexivity].
+  - unfold so_set_balance.
+    destruct (js_spec a1 (EBalance x (o_bal o)) x (set_bal o (o_bal o + v)) HW1 HJ1) as (a2 & a' & Hj & Hs & HW' & HJ' & Hl' & He' & Hf').
+    rewrite Hj. simpl. rewrite Hs. simpl. eexists _, _, _. split; [reflexivity|]. split; [reflexivity|].
+    eapply (fin_rel a s x a1 a' new [EBalance x (o_bal o)] ac); eauto.
+    + rewrite <- Ab. apply arel_bal. exact Har.
+    + repeat constructor.
+    + simpl. unfold with_accts; simpl. rewrite alter_insert. rewrite Ab, with_bal_undo. reflexivity.
+Qed.
